@@ -3,6 +3,7 @@ package harness
 import (
 	"bytes"
 	"fmt"
+	"os"
 	"sort"
 	"strings"
 	"testing"
@@ -606,6 +607,12 @@ func TestC13Big(t *testing.T) {
 }
 
 func c13Big(t *rapid.T, n, width int) {
+	// run for C08 (VERIF_PROP=C08) the same case decides: the COMPLETE file must restore without error
+	// (the snapshot was taken while three commits of more than 1 MiB were applied) to a consistent cut
+	prop := os.Getenv("VERIF_PROP")
+	if prop != "C08" {
+		prop = "C13"
+	}
 	mk := func() *column.Collection {
 		c := column.NewCollection(column.Options{Capacity: 1024, Vacuum: 24 * 3600 * 1e9})
 		c.CreateColumn("n", column.ForInt())
@@ -672,10 +679,13 @@ func c13Big(t *rapid.T, n, width int) {
 		rerr, bad := guarded(func() error { return d.Restore(deliver(data[:cut], len(data[:cut])>>2)) })
 		if bad != "" {
 			d.Close()
-			t.Fatalf("C13 violated: Restore of the first %d of %d bytes (state/log junction at %d): %s", cut, len(data), junction, bad)
+			t.Fatalf(prop+" violated: Restore of the first %d of %d bytes (state/log junction at %d): %s", cut, len(data), junction, bad)
 		}
 		if rerr != nil {
 			d.Close()
+			if prop == "C08" && cut == len(data) {
+				t.Fatalf("C08 violated: Restore of the COMPLETE snapshot (%d bytes, taken while one transaction committed %d strings of %d bytes in three blocks) failed: %v", len(data), n, width, rerr)
+			}
 			continue
 		}
 		restoredNil++
@@ -714,9 +724,9 @@ func c13Big(t *rapid.T, n, width int) {
 		}
 		d.Close()
 		if msg != "" {
-			t.Fatalf("C13 violated: Restore of the first %d of %d bytes (state/log junction at %d) returned nil, but %s", cut, len(data), junction, msg)
+			t.Fatalf(prop+" violated: Restore of the first %d of %d bytes (state/log junction at %d) returned nil, but %s", cut, len(data), junction, msg)
 		}
 	}
-	RecordCase("C13", fmt.Sprintf("big snapshot: %d bytes, junction %d, %d s2 frames, %d cuts, %d restored without error (%d inside the log tail)", len(data), junction, len(frames), len(cuts), restoredNil, tailCuts), tailCuts > 0 || restoredNil > 1, "state-and-log-tail-over-1MiB")
-	AddCounter("C13", "big_snapshot_cuts", int64(len(cuts)))
+	RecordCase(prop, fmt.Sprintf("big snapshot: %d bytes, junction %d, %d s2 frames, %d cuts, %d restored without error (%d inside the log tail)", len(data), junction, len(frames), len(cuts), restoredNil, tailCuts), tailCuts > 0 || restoredNil > 1, "state-and-log-tail-over-1MiB")
+	AddCounter(prop, "big_snapshot_cuts", int64(len(cuts)))
 }
